@@ -34,6 +34,7 @@ type Prog struct {
 	lemmaAxioms   map[string]lemmaAx
 	markers       []string
 	opaqueDefs    map[string]string
+	errIDs        map[string]int
 }
 
 const modPath = "github.com/google/safehtml"
@@ -323,6 +324,11 @@ func (fx *FuncCtx) run() {
 		ce := fx.clauseEv(st, fx.decl.Body.Lbrace+1, nil)
 		fx.assume("true", ce.boolOf(ce.ev(rq.Expr), rq.Expr))
 	}
+	for _, v := range st.env {
+		if rr, ok := v.(VRef); ok {
+			fx.emit("(assert (<= " + rr.T + " " + fx.allocTerm(st) + "))")
+		}
+	}
 	fx.initHeap(st)
 	fx.entry = st.clone()
 	x := &Exec{fx: fx, info: info}
@@ -333,8 +339,17 @@ func (fx *FuncCtx) run() {
 		// top-level statements one at a time, with the contract's waypoints proved and then assumed
 		flow = &Flow{}
 		cur := st
+		stopAfter := 0
+		if v := con.Options["stopafter"]; v != "" {
+			fmt.Sscanf(v, "%d", &stopAfter)
+			fx.trusted[fmt.Sprintf("%s: only the first %d top-level statements are verified (option stopafter); the rest of the body is outside the subset and unverified - its waypoint shows that the guarded condition cannot reach it", fx.short, stopAfter)] = true
+		}
 		for si, stm := range fx.decl.Body.List {
 			if cur == nil {
+				break
+			}
+			if stopAfter > 0 && si >= stopAfter {
+				cur = nil
 				break
 			}
 			pre := cur.clone()
@@ -377,6 +392,7 @@ func (fx *FuncCtx) run() {
 	}
 	if flow.fall != nil {
 		if sig.Results().Len() == 0 || len(fx.results) > 0 {
+			x.runDeferred(flow.fall)
 			r := &RetState{st: flow.fall, pos: fx.decl.Body.Rbrace, ord: x.nret + 1}
 			for _, o := range fx.results {
 				r.vals = append(r.vals, flow.fall.env[o])
@@ -409,6 +425,32 @@ func (fx *FuncCtx) run() {
 			ce := fx.clauseEv(pst, fx.decl.Body.Lbrace+1, r.vals)
 			t := ce.boolOf(ce.ev(en.Expr), en.Expr)
 			fx.obligeSplit("post", fmt.Sprintf("post.%s@ret%d", lbl, r.ord), r.pos, r.st.pc, t, "postcondition at return: "+en.Text)
+		}
+	}
+	// frame: heap locations written by the body must be listed in the modifies clause
+	if len(fx.heapWritten) > 0 {
+		allowed := map[string]bool{}
+		for _, k := range strings.Fields(con.Options["modifies"]) {
+			allowed[k] = true
+		}
+		var keys []string
+		for k := range fx.heapWritten {
+			keys = append(keys, k)
+		}
+		sort.Strings(keys)
+		for _, k := range keys {
+			if allowed[k] || strings.HasSuffix(k, ".held") && con.Options["locks"] == "true" {
+				continue
+			}
+			for _, r := range flow.rets {
+				cur := fx.hget(r.st, k, fx.heapSort[k])
+				goal := sEq(cur, fx.heapInitial(k, fx.heapSort[k]))
+				if strings.HasPrefix(fx.heapSort[k], "(Array Int ") && cur != fx.heapInitial(k, fx.heapSort[k]) {
+					// objects allocated by this call may be initialised freely
+					goal = fmt.Sprintf("(forall ((p!f Int)) (=> (<= p!f %s) (= (select %s p!f) (select %s p!f))))", fx.allocTerm(fx.entry), cur, fx.heapInitial(k, fx.heapSort[k]))
+				}
+				fx.oblige("frame", fmt.Sprintf("frame.%s@ret%d", sanitizeIdent(k), r.ord), r.pos, r.st.pc, goal, "heap location "+k+" is not in the modifies clause and must be unchanged on objects that existed at entry")
+			}
 		}
 	}
 	// relational frame: the result depends only on the listed parts of the parameters
